@@ -65,3 +65,29 @@ pub fn opt_s(o: Option<&str>) -> serde_json::Value {
         Some(s) => serde_json::json!({"z": "some", "v": s}),
     }
 }
+
+/// Run code under test; a panic becomes `Err(message)` and prints nothing.
+pub fn quiet_catch<T>(f: impl FnOnce() -> T) -> Result<T, String> {
+    use std::sync::Once;
+    static HOOK: Once = Once::new();
+    HOOK.call_once(|| {
+        let default_hook = std::panic::take_hook();
+        std::panic::set_hook(Box::new(move |info| {
+            if !crate::core::QUIET.load(std::sync::atomic::Ordering::SeqCst) {
+                default_hook(info);
+            }
+        }));
+    });
+    crate::core::QUIET.store(true, std::sync::atomic::Ordering::SeqCst);
+    let r = std::panic::catch_unwind(std::panic::AssertUnwindSafe(f));
+    crate::core::QUIET.store(false, std::sync::atomic::Ordering::SeqCst);
+    r.map_err(|p| {
+        if let Some(s) = p.downcast_ref::<&str>() {
+            s.to_string()
+        } else if let Some(s) = p.downcast_ref::<String>() {
+            s.clone()
+        } else {
+            "panic".to_string()
+        }
+    })
+}
